@@ -133,7 +133,8 @@ pub fn eq_complex(self_: &TL, rhs: &TL, flags: &Flags) -> (r: bool)
 }} // verus!
 fn main() {{}}
 """.replace("self.disregard_distractors", "self_.disregard_distractors")
-    return gen, [Obl("C02.compat.sound", ["C02", "C12"], fn="TypeLayout::eq_complex", desc="eq_complex answers true only if every run-time value of the supplied type is a value of the expected type (inductive step over every arm, in match order; closed types, plain flags, expected type without a literal-nil slot)")], log
+    return gen, [Obl("C02.coerce.sound", ["C02"], fn="ListType::try_coerce_to_open (lemma over its contract)", desc="a fixed-shape list that try_coerce_to_open accepts as `[T...]` only holds T values: every value of the fixed-shape type is a value of `[T...]` (lemma over C02.coerce.open and the induction hypothesis)"),
+                 Obl("C02.compat.sound", ["C02", "C12"], fn="TypeLayout::eq_complex", desc="eq_complex answers true only if every run-time value of the supplied type is a value of the expected type (inductive step over every arm, in match order; closed types, plain flags, expected type without a literal-nil slot)")], log
 
 
 UNITS = [VUnit("c02_compat_sound", ["C02", "C12"], "type compatibility is sound: accepted => the supplied type's values are values of the expected type", build)]
